@@ -14,6 +14,8 @@ import (
 	"go/token"
 	"go/types"
 	"strings"
+
+	"golang.org/x/tools/go/packages"
 )
 
 type fragTranslator struct {
@@ -21,6 +23,66 @@ type fragTranslator struct {
 	// methods of local named types that are translated too: name -> lean name
 	funcs map[string]string
 	err   error
+	// pkg: the package being translated (to look through calls of its own small helpers)
+	pkg *packages.Package
+	// subst: parameters of a helper that is being looked through -> translated argument
+	subst map[types.Object]string
+	depth int
+}
+
+// inlineCall: a call of a function or method of the same package whose body is a single `return e` is translated
+// as e with the parameters (and the receiver) replaced by the arguments — extracting such a helper does not change
+// the generated definitions
+func (ft *fragTranslator) inlineCall(e *ast.CallExpr, asProp bool) (string, bool) {
+	if ft.pkg == nil || ft.depth > 4 {
+		return "", false
+	}
+	cal := sameModuleCallee(ft.pkg, e)
+	if cal == nil || cal.Body == nil || len(cal.Body.List) != 1 {
+		return "", false
+	}
+	ret, ok := cal.Body.List[0].(*ast.ReturnStmt)
+	if !ok || len(ret.Results) != 1 {
+		return "", false
+	}
+	old := ft.subst
+	ns := map[types.Object]string{}
+	for k, v := range old {
+		ns[k] = v
+	}
+	if cal.Recv != nil {
+		sel, ok := e.Fun.(*ast.SelectorExpr)
+		if !ok {
+			return "", false
+		}
+		for _, f := range cal.Recv.List {
+			for _, n := range f.Names {
+				ns[ft.info.ObjectOf(n)] = ft.expr(sel.X)
+			}
+		}
+	}
+	k := 0
+	for _, f := range cal.Type.Params.List {
+		for _, n := range f.Names {
+			if k < len(e.Args) {
+				ns[ft.info.ObjectOf(n)] = ft.expr(e.Args[k])
+			}
+			k++
+		}
+	}
+	ft.subst = ns
+	ft.depth++
+	var out string
+	if rt := ft.info.TypeOf(ret.Results[0]); rt != nil && isBool(rt) && asProp {
+		out = ft.prop(ret.Results[0])
+	} else if rt != nil && isBool(rt) {
+		out = ft.boolExpr(ret.Results[0])
+	} else {
+		out = ft.expr(ret.Results[0])
+	}
+	ft.depth--
+	ft.subst = old
+	return out, true
 }
 
 func (ft *fragTranslator) fail(format string, args ...interface{}) string {
@@ -71,6 +133,9 @@ func (ft *fragTranslator) expr(e ast.Expr) string {
 	case *ast.ParenExpr:
 		return ft.expr(e.X)
 	case *ast.Ident:
+		if v, ok := ft.subst[ft.info.ObjectOf(e)]; ok {
+			return v
+		}
 		return leanIdent(e.Name)
 	case *ast.SelectorExpr:
 		return "(" + ft.expr(e.X) + ")." + leanIdent(e.Sel.Name)
@@ -111,6 +176,9 @@ func (ft *fragTranslator) expr(e ast.Expr) string {
 				}
 				return "(" + strings.Join(args, " ") + ")"
 			}
+		}
+		if s, ok := ft.inlineCall(e, false); ok {
+			return s
 		}
 		// conversion T(x) between integer types of the same width
 		if tv, ok := ft.info.Types[e.Fun]; ok && tv.IsType() && len(e.Args) == 1 {
@@ -153,6 +221,11 @@ func (ft *fragTranslator) prop(e ast.Expr) string {
 		}
 		if op != "" {
 			return "(" + ft.expr(e.X) + " " + op + " " + ft.expr(e.Y) + ")"
+		}
+	}
+	if c, ok := e.(*ast.CallExpr); ok {
+		if s, ok := ft.inlineCall(c, true); ok {
+			return s
 		}
 	}
 	// a bool-valued expression (call, identifier)
